@@ -166,7 +166,8 @@ CHECKS = {
                        "which must have been released are compared with a step model written from the property text and the documentation. Free-running goroutines: the "
                        "observed output must be the model's output for some interleaving compatible with each source's own order."
                        " Free-running producers: one goroutine per source, repeated; the observed output must be a member of the set of model outputs over all interleavings; WindowWhen with source and boundary on two goroutines (and with a producer driven by window completions) is judged by a validity predicate (windows concatenate to the source's values, every window closed)."
-                       " Random arrival orders with up to 3 values per source (three sources included); GroupBy |> Take(n) |> MergeAll and a hand-written consumer that stops inside the Next delivering the n-th group: the item that opened a delivered group is not lost."),
+                       " Random arrival orders with up to 3 values per source (three sources included); GroupBy |> Take(n) |> MergeAll and a hand-written consumer that stops inside the Next delivering the n-th group: the item that opened a delivered group is not lost."
+                       " The hand-written higher arities (MergeWith3/4, CombineLatest4/5, CombineLatestWith3/4, Zip4..6, ZipWith3..5, ZipAll and CombineLatestAll over 3-4 sources, CombineLatestAny) take part in the random arrival orders and in the concurrent membership check."),
         "level_note": ("Two listed findings pinned by the suite (TakeUntil/SkipUntil notifier error, SequenceEqual prefix comparison). The concurrent part only sees the schedules the "
                        "scheduler produces. FlatMap with asynchronous inners is covered through Concat + the cold-inner rows of C04."),
     },
@@ -204,7 +205,8 @@ CHECKS = {
                        "one upstream subscription; join or start, discard on error/complete/refcount-zero as configured, replay rules of the connector kind; connectables: nothing "
                        "before Connect, Connect while connected returns the same subscription, disconnect releases upstream and (optionally) installs a fresh subject. "
                        "Concurrently arriving first subscribers must share one upstream subscription and see gap-free, ordered values."
-                       " Connectable observables: 2..6 concurrent Connect calls with a source whose subscribe function takes time - one upstream subscription, each value once per subscriber, release after the returned connections are unsubscribed."),
+                       " Connectable observables: 2..6 concurrent Connect calls with a source whose subscribe function takes time - one upstream subscription, each value once per subscriber, release after the returned connections are unsubscribed."
+                       " Every connectable constructor (Connectable, ConnectableWithConfig, NewConnectableObservable[WithContext][WithConfig[AndContext]]) goes through the same sequences."),
         "level_note": "The concurrent part is statistical and checks invariants only (not the full model).",
     },
     "C10": {
@@ -306,7 +308,7 @@ CHECKS = {
                  "subscription context {WithValue, WithCancel, WithDeadline, custom type}). Non-trivial = the case exercises a terminal path (error/complete ending) "
                  "or a row that stores items (SkipLast, TakeLast, Min/Max, Reduce) - not just pass-through Next; distinct by descriptor hash."),
         "quick": {"rapid": 2000, "timeout": 300, "shards": 4},
-        "thorough": {"rapid": 30000, "timeout": 3000, "shards": 16, "fuzz": {"seconds": 30, "targets": ["FuzzC09_ChainsRandom"]}},
+        "thorough": {"rapid": 30000, "timeout": 3000, "shards": 16, "fuzz": {"seconds": 30, "targets": ["FuzzC09_ChainsRandom", "FuzzC09_ContextOperators"]}},
         "assumptions": COMMON_ASSUMPTIONS,
         "technique": "property-based testing: marker propagation invariants over enumerated rows and rapid chains (subscription marker, upstream marker, per-item provenance, non-nil)",
         "level_text": ("Exploration. Every catalogue row (all variants incl. the context-aware callbacks) and random chains are subscribed with a context carrying a marker; "
@@ -315,7 +317,8 @@ CHECKS = {
                        "passes upstream notifications on, the item key of a value-preserving row's output is the key of the item it derives from, contexts returned "
                        "by WithContext callbacks are visible downstream, and every source is subscribed with the subscription context."
                        " Time-driven and hand-off operators (Delay, DelayEach, Timeout, SampleTime, ThrottleTime, time buffers, ObserveOn, SubscribeOn and chains of them, Zip / CombineLatest / WindowWhen with timers) run in virtual time with the same markers: subscription value on every callback, item context travelling with its item, upstream value on forwarded terminals and on Timeout's own error once an item has passed."
-                       " Sources written with the context-less API (notifications arrive with context.Background()): what a context operator below the source attaches must be on every kind of notification."),
+                       " Sources written with the context-less API (notifications arrive with context.Background()): what a context operator below the source attaches must be on every kind of notification."
+                       " The context operators themselves (ContextWithValue, ContextWithDeadline, ContextWithTimeout, ContextReset incl. nil, ContextMap, ContextMapI) against their documented effect, with pass-through stages in front and behind."),
         "level_note": ("Documented exceptions are encoded, not filtered ad hoc: DefaultIfEmptyWithContext (explicit context), stages that never subscribe their source "
                        "(Take(0) ...), values a stage produces itself (StartWith prefixes, fallbacks). Hand-off/time rows (Delay, ObserveOn, Zip ...) are checked in C08/C16/C05 harnesses."),
     },
@@ -362,7 +365,7 @@ CHECKS = {
                  "Pipe/PipeN/PipeOpN arities 1..25). A case is non-trivial when the input has >= 1 value, or it is a chain of >= 2 stages; "
                  "distinct = distinct (row/chain, variant, params, script) descriptor, counted by hash set."),
         "quick": {"rapid": 1500, "timeout": 300, "shards": 4},
-        "thorough": {"rapid": 12000, "timeout": 3000, "shards": 16, "fuzz": {"seconds": 30, "targets": ["FuzzC04_ChainsRandom", "FuzzC04_LongScripts", "FuzzC04_MathTyped"]}},
+        "thorough": {"rapid": 12000, "timeout": 3000, "shards": 16, "fuzz": {"seconds": 30, "targets": ["FuzzC04_ChainsRandom", "FuzzC04_LongScripts", "FuzzC04_MathTyped", "FuzzC04_MathRounding", "FuzzC04_Dematerialize"]}},
         "assumptions": COMMON_ASSUMPTIONS,
         "technique": "property-based testing: bounded-exhaustive enumeration + rapid generation against a reference model; variant and composition differentials",
         "level_text": ("Exploration. Every catalogue row (about 65 behaviours, all their plain/I/WithContext/IWithContext/alias variants) is run on every value "
@@ -373,7 +376,8 @@ CHECKS = {
                        "checked for later mutation. Sampled beyond the small scope; no claim outside explored cases."
                        " Sum, Average, Min, Max, Clamp and Count are run over every numeric element type (int8..uint64, float32/64, values at the type's limits) against exact rational arithmetic."
                        " Dematerialize over arbitrary notification streams (in-band and out-of-band endings, Take upstream); for every operator that delivers slices or maps, a consumer that clears whatever it receives must be delivered the same sequence as a passive one."
-                       " Every catalogue row is also fed a stream that ends with Error(nil) (the library accepts it): same values and same kind of ending as with a non-nil error."),
+                       " Every catalogue row is also fed a stream that ends with Error(nil) (the library accepts it): same values and same kind of ending as with a non-nil error."
+                       " Round / Abs / Floor / Ceil / Trunc against the math package bit for bit; FloorWithPrecision / CeilWithPrecision(places in -1000..1000) against a validity predicate in exact rational arithmetic (the multiple of 10^-places next to the value - or to a neighbour within two ulps, a float64 standing for the decimal the user wrote -, +-Inf where the ideal result leaves the float64 range)."),
         "level_note": ("Trusts the hand-written reference models (harness/model) and the documentation reading recorded in DESIGN.md appendix A. "
                        "Time-driven, hand-off and multi-source rows are judged by C05/C08/C16/C17, float rounding helpers by validity predicates only."),
     },
